@@ -1,11 +1,345 @@
 import Tmcg.Driver
+import Tmcg.Model.Io2
 /-
-  Line-protocol handlers of area "io2" — filled by the builder of that area.
+  Line-protocol handlers of area "io2" (property C11, second part).
   Line formats: top of harness/drv_io2.cc.
 -/
 namespace Tmcg.DriverIo2
-open Tmcg Tmcg.Driver
+open Tmcg Tmcg.Driver Tmcg.Io2
 
-def handlers : List (String × Handler) := []
+/-! ### tokens -/
+
+/-- hex token (`-` = empty) to a text with one character per byte -/
+def pText (s : String) : Option Text := do
+  let bs ← pHex s
+  some (bs.map Char.ofNat)
+
+def hexText (t : Text) : String :=
+  if t.isEmpty then "-"
+  else String.ofList (t.flatMap fun c => [Sigma.hexDigit (c.toNat / 16 % 16), Sigma.hexDigit (c.toNat % 16)])
+
+def showInts (l : List Int) : String := showList l
+def showNats (l : List Nat) : String := showList l
+
+def showR {α} (f : α → String) : Except Err (α × IStream) → String
+  | .ok (a, _) => f a
+  | .error e => toString e
+
+def chunkBlocks (n m : Nat) : Nat → List Int → List Block
+  | 0, _ => []
+  | k+1, l => ⟨pairUp (l.take (2 * n)), (l.drop (2 * n)).take m⟩ :: chunkBlocks n m k (l.drop (2 * n + m))
+
+def flatBlocks (bs : List Block) : List Int := bs.flatMap fun b => unpair b.sp ++ b.c
+
+/-- flat list of `n` blocks of `n` pairs and `m` commitments each -/
+def pBlocks (n m : Nat) (s : String) : Option (List Block) := do
+  let l ← pIntList s
+  if l.length ≠ n * (2 * n + m) then none
+  else some (chunkBlocks n m n l)
+
+/-! ### cards -/
+
+def showTCard (c : TCard) : String := s!"{c.k} {c.w} {showInts c.z}"
+def showTSecret (c : TSecret) : String := s!"{c.k} {c.w} {showInts (unpair c.rb)}"
+
+def slashed (k w : Nat) (z : List Int) : String :=
+  "/".intercalate (toString k :: toString w :: z.map toString)
+
+def pSlashCard (e : String) : Option TCard :=
+  match e.splitOn "/" with
+  | k :: w :: z => do
+    let k ← pNat k; let w ← pNat w; let z ← z.mapM pInt
+    some ⟨k, w, z⟩
+  | _ => none
+
+def pSlashSecret (e : String) : Option (Nat × TSecret) :=
+  match e.splitOn "/" with
+  | idx :: k :: w :: z => do
+    let idx ← pNat idx; let k ← pNat k; let w ← pNat w; let z ← z.mapM pInt
+    some (idx, ⟨k, w, pairUp z⟩)
+  | _ => none
+
+def showTStack (s : List TCard) : String :=
+  "[" ++ ",".intercalate (s.map fun c => slashed c.k c.w c.z) ++ "]"
+def showTSts (s : List (Nat × TSecret)) : String :=
+  "[" ++ ",".intercalate (s.map fun e => toString e.1 ++ "/" ++ slashed e.2.k e.2.w (unpair e.2.rb)) ++ "]"
+
+def hTCardExport : Handler
+  | [k, w, z] => do
+    let k ← pNat k; let w ← pNat w; let z ← pIntList z
+    some (hexText (tcardText ⟨k, w, z⟩))
+  | _ => none
+def hTCardImport : Handler
+  | [t] => do
+    let t ← pText t
+    some (match importTCard t with | some c => showTCard c | none => "reject")
+  | _ => none
+def hTSecretExport : Handler
+  | [k, w, z] => do
+    let k ← pNat k; let w ← pNat w; let z ← pIntList z
+    some (hexText (tsecretText ⟨k, w, pairUp z⟩))
+  | _ => none
+def hTSecretImport : Handler
+  | [t] => do
+    let t ← pText t
+    some (match importTSecret t with | some c => showTSecret c | none => "reject")
+  | _ => none
+def hTStackExport : Handler
+  | [s] => do
+    let l ← pList s; let cs ← l.mapM pSlashCard
+    some (hexText (tstackText cs))
+  | _ => none
+def hTStackImport : Handler
+  | [t] => do
+    let t ← pText t
+    some (match importTStack t with | some s => showTStack s | none => "reject")
+  | _ => none
+def hTStsExport : Handler
+  | [s] => do
+    let l ← pList s; let cs ← l.mapM pSlashSecret
+    some (hexText (tstsText cs))
+  | _ => none
+def hTStsImport : Handler
+  | [t] => do
+    let t ← pText t
+    some (match importTSts t with | some s => showTSts s | none => "reject")
+  | _ => none
+
+/-! ### keys -/
+
+def showPub (K : Rabin.PubKey) : String :=
+  s!"{hexText K.name} {hexText K.email} {hexText K.type} {K.m} {K.y} {hexText K.nizk} {hexText K.sig}"
+def showSec (K : Rabin.SecKey) : String :=
+  s!"{hexText K.name} {hexText K.email} {hexText K.type} {K.m} {K.y} {K.p} {K.q} {hexText K.nizk} {hexText K.sig}"
+
+def pPub : List String → Option Rabin.PubKey
+  | [name, email, type, m, y, nizk, sig] => do
+    let name ← pText name; let email ← pText email; let type ← pText type
+    let m ← pInt m; let y ← pInt y; let nizk ← pText nizk; let sig ← pText sig
+    some ⟨name, email, type, m, y, nizk, sig⟩
+  | _ => none
+def pSec : List String → Option Rabin.SecKey
+  | [name, email, type, m, y, p, q, nizk, sig] => do
+    let name ← pText name; let email ← pText email; let type ← pText type
+    let m ← pInt m; let y ← pInt y; let p ← pInt p; let q ← pInt q
+    let nizk ← pText nizk; let sig ← pText sig
+    some ⟨name, email, type, m, y, p, q, nizk, sig⟩
+  | _ => none
+
+def hPubExport : Handler := fun a => do let K ← pPub a; some (hexText (Rabin.pubText K))
+def hSecExport : Handler := fun a => do let K ← pSec a; some (hexText (Rabin.secText K))
+def hPubImport : Handler
+  | [t] => do
+    let t ← pText t
+    some (match Rabin.importPub t with | some K => showPub K | none => "reject")
+  | _ => none
+def hSecImport : Handler
+  | [t] => do
+    let t ← pText t
+    some (match importSecFull t with | some K => showSec K | none => "reject")
+  | _ => none
+def hPubStream : Handler
+  | [t] => do
+    let t ← pText t
+    some (match (readPub (IStream.of t)).1 with | some K => showPub K | none => "reject")
+  | _ => none
+def hSecStream : Handler
+  | [t] => do
+    let t ← pText t
+    some (match (readSec (IStream.of t)).1 with | some K => showSec K | none => "reject")
+  | _ => none
+/-- io2.ring.stream n hextext => [hex of each key's own text,…] | reject -/
+def hRingStream : Handler
+  | [n, t] => do
+    let n ← pNat n; let t ← pText t
+    some (match readRing n (IStream.of t) with
+      | some ks => "[" ++ ",".intercalate (ks.map fun K => hexText (Rabin.pubText K)) ++ "]"
+      | none => "reject")
+  | _ => none
+
+/-! ### group parameter sets -/
+
+def pGrp4 : List String → Option Grp4
+  | [p, q, g, h] => do
+    let p ← pInt p; let q ← pInt q; let g ← pInt g; let h ← pInt h
+    some ⟨p, q, g, h⟩
+  | _ => none
+def showGrp4 (G : Grp4) : String := s!"{G.p} {G.q} {G.g} {G.h}"
+def showVtmf (G : VtmfGroup) : String := s!"{G.p} {G.q} {G.g} {G.k}"
+def showCom (C : PedCom) : String := s!"{C.p} {C.q} {C.k} {C.h} {showInts C.g}"
+
+def pCom : List String → Option PedCom
+  | [p, q, k, h, g] => do
+    let p ← pInt p; let q ← pInt q; let k ← pInt k; let h ← pInt h; let g ← pIntList g
+    some ⟨p, q, k, h, g⟩
+  | _ => none
+
+def hVtmfExport : Handler := fun a => do let G ← pGrp4 a; some (hexText (vtmfText ⟨G.p, G.q, G.g, G.h⟩))
+def hVtmfImport : Handler
+  | [pre, t] => do
+    let pre ← pNat pre; let t ← pText t
+    some (showR showVtmf (importVtmf (pre = 1) (IStream.of t)))
+  | _ => none
+def hQrImport : Handler
+  | [e, t] => do
+    let e ← pNat e; let t ← pText t
+    some (showR showVtmf (importQr e (IStream.of t)))
+  | _ => none
+def hComExport : Handler := fun a => do let C ← pCom a; some (hexText (comText C))
+def hComImport : Handler
+  | [n, t] => do
+    let n ← pNat n; let t ← pText t
+    some (showR showCom (importCom n (IStream.of t)))
+  | _ => none
+def hTrapExport : Handler
+  | [p, q, k, g, h] => do
+    let p ← pInt p; let q ← pInt q; let k ← pInt k; let g ← pInt g; let h ← pInt h
+    some (hexText (trapText ⟨p, q, k, g, h⟩))
+  | _ => none
+def hTrapImport : Handler
+  | [t] => do
+    let t ← pText t
+    some (showR (fun C => s!"{C.p} {C.q} {C.k} {C.g} {C.h}") (importTrap (IStream.of t)))
+  | _ => none
+def hVrheExport : Handler := fun a => do let G ← pGrp4 a; some (hexText (grp4Text G))
+def hVrheImport : Handler
+  | [t] => do
+    let t ← pText t
+    some (showR showGrp4 (importVrhe (IStream.of t)))
+  | _ => none
+def hEotpExport : Handler
+  | [p, q, g] => do
+    let p ← pInt p; let q ← pInt q; let g ← pInt g
+    some (hexText (eotpText ⟨p, q, g⟩))
+  | _ => none
+def hEotpImport : Handler
+  | [t] => do
+    let t ← pText t
+    some (showR (fun G => s!"{G.p} {G.q} {G.g}") (importEotp (IStream.of t)))
+  | _ => none
+def hVssheExport : Handler
+  | [p, q, g, h, cp, cq, ck, ch, cg] => do
+    let G ← pGrp4 [p, q, g, h]; let C ← pCom [cp, cq, ck, ch, cg]
+    some (hexText (vssheText ⟨G, C⟩))
+  | _ => none
+def hVssheImport : Handler
+  | [n, t] => do
+    let n ← pNat n; let t ← pText t
+    some (showR (fun V => s!"{showGrp4 V.grp} {showCom V.com}") (importVsshe n (IStream.of t)))
+  | _ => none
+
+/-! ### persisted state -/
+
+def pVss : List String → Option VssState
+  | [p, q, g, h, n, t, i, sigma, tau, a, b, A] => do
+    let G ← pGrp4 [p, q, g, h]; let n ← pNat n; let t ← pNat t; let i ← pNat i
+    let sigma ← pInt sigma; let tau ← pInt tau
+    let a ← pIntList a; let b ← pIntList b; let A ← pIntList A
+    some ⟨G, n, t, i, sigma, tau, a, b, A⟩
+  | _ => none
+def showVss (V : VssState) : String :=
+  s!"{showGrp4 V.grp} {V.n} {V.t} {V.i} {V.sigma} {V.tau} {showInts V.a} {showInts V.b} {showInts V.A}"
+
+def pHead : List String → Option KeyHead
+  | [p, q, g, h, n, t, i, x, xp, y, Q] => do
+    let G ← pGrp4 [p, q, g, h]; let n ← pNat n; let t ← pNat t; let i ← pNat i
+    let x ← pInt x; let xp ← pInt xp; let y ← pInt y; let Q ← pNatList Q
+    some ⟨G, n, t, i, x, xp, y, Q⟩
+  | _ => none
+def showHead (H : KeyHead) : String :=
+  s!"{showGrp4 H.grp} {H.n} {H.t} {H.i} {H.x} {H.xp} {H.y} {showNats H.qual}"
+
+def pGDkg (a : List String) : Option GDkg :=
+  match a.drop 11 with
+  | [yi, zi, vi, fl] => do
+    let H ← pHead (a.take 11)
+    let yi ← pIntList yi; let zi ← pIntList zi; let vi ← pIntList vi
+    let bs ← pBlocks H.n (H.t + 1) fl
+    some ⟨H, yi, zi, vi, bs⟩
+  | _ => none
+def showGDkg (D : GDkg) : String :=
+  s!"{showHead D.head} {showInts D.yi} {showInts D.zi} {showInts D.vi} {showInts (flatBlocks D.blocks)}"
+
+def pRvss (zvss : Bool) : List String → Option Rvss
+  | [p, q, g, h, n, t, i, tp, x, xp, z, zp, Q, fl] =>
+    if zvss then none else do
+    let G ← pGrp4 [p, q, g, h]; let n ← pNat n; let t ← pNat t; let i ← pNat i; let tp ← pNat tp
+    let x ← pInt x; let xp ← pInt xp; let z ← pInt z; let zp ← pInt zp; let Q ← pNatList Q
+    let bs ← pBlocks n (tp + 1) fl
+    some ⟨G, n, t, i, tp, x, xp, z, zp, Q, bs⟩
+  | [p, q, g, h, n, t, i, tp, x, xp, Q, fl] =>
+    if !zvss then none else do
+    let G ← pGrp4 [p, q, g, h]; let n ← pNat n; let t ← pNat t; let i ← pNat i; let tp ← pNat tp
+    let x ← pInt x; let xp ← pInt xp; let Q ← pNatList Q
+    let bs ← pBlocks n (tp + 1) fl
+    some ⟨G, n, t, i, tp, x, xp, 0, 0, Q, bs⟩
+  | _ => none
+def showRvss (zvss : Bool) (R : Rvss) : String :=
+  let zs := if zvss then "" else s!" {R.z} {R.zp}"
+  s!"{showGrp4 R.grp} {R.n} {R.t} {R.i} {R.tp} {R.x} {R.xp}{zs} {showNats R.qual} {showInts (flatBlocks R.blocks)}"
+
+def pCDkg (a : List String) : Option CDkg := do
+  let H ← pHead (a.take 11); let R ← pRvss false (a.drop 11)
+  some ⟨H, R⟩
+def showCDkg (D : CDkg) : String := s!"{showHead D.head} {showRvss false D.rvss}"
+def pDss (a : List String) : Option Dss := do
+  let H ← pHead (a.take 11); let K ← pCDkg (a.drop 11)
+  some ⟨H, K⟩
+def showDss (D : Dss) : String := s!"{showHead D.head} {showCDkg D.dkg}"
+
+def hVssExport : Handler := fun a => do let V ← pVss a; some (hexText (vssText V))
+def hGDkgExport : Handler := fun a => do let D ← pGDkg a; some (hexText (gdkgText D))
+def hGDkgKeys : Handler := fun a => do let D ← pGDkg a; some (hexText (gdkgKeysText D))
+def hRvssExport : Handler := fun a => do let R ← pRvss false a; some (hexText (rvssText false R))
+def hZvssExport : Handler := fun a => do let R ← pRvss true a; some (hexText (rvssText true R))
+def hCDkgExport : Handler := fun a => do let D ← pCDkg a; some (hexText (cdkgText D))
+def hDssExport : Handler := fun a => do let D ← pDss a; some (hexText (dssText D))
+
+def importH {α} (imp : Rd α) (sh : α → String) : Handler
+  | [t] => do
+    let t ← pText t
+    some (showR sh (imp (IStream.of t)))
+  | _ => none
+
+/-- io2.size cur hextext => value   (`std::stringstream(text) >> n` on a `size_t` holding `cur`) -/
+def hSize : Handler
+  | [cur, t] => do
+    let cur ← pNat cur; let t ← pText t
+    some (toString (parseSize cur t))
+  | _ => none
+
+/-- io2.mpzline hextext => value good restlen | throw:runtime_error   (`in >> mpz` once) -/
+def hMpzLine : Handler
+  | [t] => do
+    let t ← pText t
+    some (match readMpz (IStream.of t) with
+      | .ok (v, s) => s!"{v} {showBool s.good} {s.rest.length}"
+      | .error e => toString e)
+  | _ => none
+
+def handlers : List (String × Handler) := [
+  ("io2.tcard.export", hTCardExport), ("io2.tcard.import", hTCardImport),
+  ("io2.tsecret.export", hTSecretExport), ("io2.tsecret.import", hTSecretImport),
+  ("io2.tstack.export", hTStackExport), ("io2.tstack.import", hTStackImport),
+  ("io2.tsts.export", hTStsExport), ("io2.tsts.import", hTStsImport),
+  ("io2.pub.export", hPubExport), ("io2.pub.import", hPubImport), ("io2.pub.stream", hPubStream),
+  ("io2.sec.export", hSecExport), ("io2.sec.import", hSecImport), ("io2.sec.stream", hSecStream),
+  ("io2.ring.stream", hRingStream),
+  ("io2.vtmf.export", hVtmfExport), ("io2.vtmf.import", hVtmfImport), ("io2.qr.import", hQrImport),
+  ("io2.com.export", hComExport), ("io2.com.import", hComImport),
+  ("io2.skc.export", hComExport), ("io2.skc.import", hComImport),
+  ("io2.trap.export", hTrapExport), ("io2.trap.import", hTrapImport),
+  ("io2.vrhe.export", hVrheExport), ("io2.vrhe.import", hVrheImport),
+  ("io2.eotp.export", hEotpExport), ("io2.eotp.import", hEotpImport),
+  ("io2.vsshe.export", hVssheExport), ("io2.vsshe.import", hVssheImport),
+  ("io2.vss.export", hVssExport), ("io2.vss.import", importH importVss showVss),
+  ("io2.gdkg.export", hGDkgExport), ("io2.gdkg.keys", hGDkgKeys),
+  ("io2.gdkg.import", importH importGDkg showGDkg),
+  ("io2.rvss.export", hRvssExport), ("io2.rvss.import", importH (importRvss false) (showRvss false)),
+  ("io2.zvss.export", hZvssExport), ("io2.zvss.import", importH (importRvss true) (showRvss true)),
+  ("io2.cdkg.export", hCDkgExport), ("io2.cdkg.import", importH importCDkg showCDkg),
+  ("io2.dss.export", hDssExport), ("io2.dss.import", importH importDss showDss),
+  ("io2.size", hSize), ("io2.mpzline", hMpzLine)
+]
 
 end Tmcg.DriverIo2
